@@ -99,6 +99,11 @@ func (p *popJ) build(root string) {
 			if err := os.MkdirAll(full, 0o777); err != nil {
 				vutil.Fatalf("mkdir: %v", err)
 			}
+		} else if n.Kind == "other" {
+			// a symbolic link; its target (relative to its own directory) is the node's data
+			if err := os.Symlink(n.Data, full); err != nil {
+				vutil.Fatalf("symlink: %v", err)
+			}
 		} else {
 			mustWrite(full, oldData(rel))
 		}
